@@ -8,8 +8,9 @@ byte prefix P of a complete file F whose box line starts at byte offset B:
 
     R1  len(P) <= B             ==>  rejected (any Exception)
     R2  accepted and len(P) > B ==>  returned records == atom records of F
-    R3  P == F                  ==>  accepted (liveness: keeps R1/R2 from
-                                     holding vacuously on a reader that rejects everything)
+    R3  P == F                  ==>  accepted.  NOT demanded by the C14 statement (readability of
+                                     complete files is C13's subject): a miss is reported as
+                                     UNDECIDED (R1/R2 hold vacuously for that file), never refuted
 
 Writer contract (GroFile(path, 'w'), writeline * n, close()), observed through a
 pass-through proxy of the underlying file object that takes a flushed copy of
@@ -22,7 +23,16 @@ a crash point ("the process dies before the next operation"):
                                                            count n, the n records handed to writeline and at least
                                                            one byte of the box line, and the reader returns exactly
                                                            those n records
-    W3  after close() returned                         ==> accepted with exactly the n records
+    W3  after close() returned and the file is accepted ==> the reader returns exactly the atom records the finished
+                                                           file holds by the independent parser (a rejected finished
+                                                           file, a writer that raises, or a file that does not hold the
+                                                           records given to writeline are C13's subject: UNDECIDED)
+    W4  every byte prefix of the bytes flushed just
+        before close() is called (torn last write)     ==> rejected ("stops at any point before it is closed")
+
+No clause depends on how many low-level operations the writer uses, on the type of
+the exception, or on the text layout the writer chooses (the reference records of
+W2/W3 are parsed from the finished file itself).
 
 The oracle (records, box-line offset) is a fixed-width parser written here; it
 never calls into gaddlemaps.
@@ -80,7 +90,8 @@ def info(prop):
                         "session is run with the atom count declared up front or back-filled, and the flushed file after every low-level "
                         "write/seek (after open, inside and after each record, before close, between the steps of _write_closing_info) is "
                         "given to the real reader; additionally every byte prefix of the flushed file just before close() (torn last write) "
-                        "must be rejected."),
+                        "must be rejected. Liveness (complete/finished files are accepted; the finished file holds the records given to "
+                        "writeline) is not part of the C14 statement: a miss there is reported undecided, not as a violation."),
         "rule": ("one evaluation per (file, prefix length) resp. per (writer session, crash point); non-trivial = distinct byte strings "
                  "given to the reader; obligations are grouped per clause and scope family"),
         "exhaustive": True,
@@ -223,6 +234,10 @@ class _Hang(BaseException):
     pass
 
 
+class _NoProxy(Exception):
+    pass
+
+
 @contextlib.contextmanager
 def _deadline(seconds):
     def on_alarm(signum, frame):
@@ -267,9 +282,12 @@ class _Handles:
 
 
 def _norm(recs):
+    """Records as tuples of plain Python values, names stripped (the statement fixes the
+    records, not their container type or padding)."""
     out = []
     for r in recs:
-        out.append(tuple(x.item() if hasattr(x, "item") else x for x in r))
+        vals = [x.item() if hasattr(x, "item") else x for x in r]
+        out.append(tuple(v.strip() if isinstance(v, str) else v for v in vals))
     return out
 
 
@@ -300,10 +318,12 @@ def _show(obs):
 
 
 def judge_prefix(plen, total, box_off, want, obs):
-    """Clauses R1-R3 for one prefix.  Returns list of (clause, message); empty = holds."""
+    """Clauses R1-R3 for one prefix.  Returns list of (clause, message); empty = holds.
+    A clause name starting with '?' is not demanded by the statement of C14 (liveness:
+    that complete files are readable is C13's subject): it is reported undecided, never refuted."""
     bad = []
     if obs[0] == "hang":
-        bad.append(("R1" if plen <= box_off else "R2", "reader did not return within %.0f s" % HANG_SECONDS))
+        bad.append(("R1" if plen <= box_off else "?R3", "reader did not return within %.0f s" % HANG_SECONDS))
         return bad
     if plen <= box_off and obs[0] == "accepted":
         bad.append(("R1", "prefix of %d bytes ends before the box line (offset %d) but is %s; expected an exception"
@@ -312,13 +332,14 @@ def judge_prefix(plen, total, box_off, want, obs):
         bad.append(("R2", "prefix of %d bytes is accepted with other records than the complete file: %s; expected %d records %s"
                     % (plen, _show(obs), len(want), str(want)[:160])))
     if plen == total and obs[0] != "accepted":
-        bad.append(("R3", "the complete file is %s; expected its %d records" % (_show(obs), len(want))))
+        bad.append(("?R3", "the complete file is %s (its %d records were expected; not demanded by the C14 statement, but "
+                    "R1/R2 then hold vacuously for this file)" % (_show(obs), len(want))))
     return bad
 
 
 CLAUSE_ID = {"R1": "ensures.prefix_ending_before_box_line_is_rejected",
              "R2": "ensures.accepted_prefix_returns_exactly_the_records_of_the_complete_file",
-             "R3": "ensures.complete_file_is_accepted"}
+             "R3": "liveness.complete_file_is_accepted"}
 
 
 def check_prefixes(data: bytes, lengths, workdir, reader, want=None):
@@ -351,7 +372,7 @@ def check_prefixes(data: bytes, lengths, workdir, reader, want=None):
 
 
 def _sig_prefix(clause, plen, orc):
-    if clause == "R3":
+    if clause.endswith("R3"):
         return "R3:complete-file-rejected"
     if clause == "R2":
         return "R2:wrong-records"
@@ -368,6 +389,7 @@ class _Acc:
         self.distinct = {c: 0 for c in clause_ids}
         self.fail = {}
         self.nfail = {c: 0 for c in clause_ids}
+        self.undec = {}
         self.sample = None
         self.t0 = time.time()
 
@@ -381,6 +403,17 @@ class _Acc:
         if old is None or cex.get("_size", 0) < old[1].get("_size", 0):
             self.fail[clause] = (reason, cex)
 
+    def undecided(self, clause, reason):
+        self.undec.setdefault(clause, [0, reason])[0] += 1
+
+    def route(self, clause, reason, cex):
+        """'?X' = not demanded by the statement -> undecided; 'X' -> refuted."""
+        if clause.startswith("?"):
+            if clause[1:] in self.ids:
+                self.undecided(clause[1:], reason)
+        elif clause in self.ids:
+            self.failure(clause, reason, cex)
+
     def obligations(self):
         out = []
         secs = time.time() - self.t0
@@ -391,6 +424,10 @@ class _Acc:
                 cex = {k: v for k, v in cex.items() if k != "_size"}
                 out.append(ob(oid, "refuted", secs=secs, evaluations=self.n[c], nontrivial=self.distinct[c],
                               reason="%d failing evaluation(s); smallest: %s" % (self.nfail[c], reason), cex=cex,
+                              sample=self.sample, **KW))
+            elif c in self.undec:
+                out.append(ob(oid, "undecided", secs=secs, evaluations=self.n[c], nontrivial=self.distinct[c],
+                              reason="%d evaluation(s) could not be judged; first: %s" % tuple(self.undec[c]),
                               sample=self.sample, **KW))
             elif self.n[c] == 0:
                 out.append(ob(oid, "undecided", secs=secs, evaluations=0, nontrivial=0,
@@ -409,7 +446,7 @@ def _run_prefix_family(acc, name, data, lengths, workdir, reader, cex_extra):
         cex = {"kind": "prefix", "name": name, "prefix_len": plen, "box_line_offset": orc["box_off"],
                "signature": _sig_prefix(clause, plen, orc), "_size": plen + 10 * len(data)}
         cex.update(cex_extra)
-        acc.failure(clause, "%s: %s" % (name, msg), cex)
+        acc.route(clause, "%s: %s" % (name, msg), cex)
     return stats, orc
 
 
@@ -497,7 +534,7 @@ def _reader_must_fail(fam):
         with S.patched(_parsers(), open=h.open):
             _, first2, _, _ = check_prefixes(data, [len(data)], wd, lambda p: observe_read(p, h), want=want)
     for tag, caught in (("R1.sloppy-reader", "R1" in first),
-                        ("R3.reject-all-reader", "R3" in first3), ("R2.corrupted-expectation", "R2" in first2)):
+                        ("R3.reject-all-reader", "?R3" in first3), ("R2.corrupted-expectation", "R2" in first2)):
         out.append(ob("%s/%s/guard.must-fail.%s/%s" % (PROP, FN_R, tag, fam), "refuted" if caught else "discharged",
                       kind="guard", engine="smallscope", backend="runtime-contract", expect="refuted"))
     return out
@@ -563,7 +600,7 @@ def task_reader_shipped(fn, mode, lo, hi, seed):
                "signature": _sig_prefix(clause, plen, orc)}
         if len(data) <= 4096:
             cex["file"] = data.decode("latin-1")
-        acc.failure(clause, "%s: %s" % (fn, msg), cex)
+        acc.route(clause, "%s: %s" % (fn, msg), cex)
     acc.sample = {"shipped": fn, "bytes": len(data), "records": orc["n"], "box_line_offset": orc["box_off"],
                   "prefix_lengths": len(lengths), "accepted": stats["accepted"], "rejected": stats["rejected"]}
     return acc.obligations()
@@ -632,6 +669,8 @@ def run_session(script, workdir):
     try:
         with S.patched(P, open=snap_open), _deadline(HANG_SECONDS):
             gf = P.GroFile(path, "w")
+            if not proxies:
+                raise _NoProxy()
             proxies[0]._snap("open")
             if script["declare"]:
                 gf.natoms = len(script["records"])
@@ -646,6 +685,12 @@ def run_session(script, workdir):
             gf.close()
             state["phase"] = "finished"
             proxies[0]._snap("close() returned")
+    except _NoProxy:
+        err = "harness: GroFile did not open its file through gaddlemaps.parsers.open; crash points cannot be observed"
+        try:
+            gf._file.close()
+        except Exception:
+            pass
     except _Hang:
         err = "writer did not return within %.0f s" % HANG_SECONDS
     except Exception as e:
@@ -661,46 +706,82 @@ def run_session(script, workdir):
 
 WCLAUSE_ID = {"W1": "ensures.crash_before_close_is_rejected",
               "W2": "ensures.crash_inside_close_is_rejected_unless_all_records_and_box_line_are_on_disk",
-              "W3": "ensures.finished_file_is_accepted_with_exactly_the_written_records",
+              "W3": "ensures.accepted_finished_file_returns_exactly_its_atom_records",
               "W4": "ensures.torn_write_before_close_is_rejected"}
 
 
-def judge_snapshot(phase, data, obs, want):
-    """Clauses W1-W3 for one crash point.  Returns list of (clause, message)."""
-    n = len(want)
-    if phase == "finished":
-        if obs[0] != "accepted" or obs[1] != want:
-            return [("W3", "finished file of %d bytes is %s; expected %d records %s" % (len(data), _show(obs), n, str(want)[:160]))]
-        return []
-    if obs[0] == "hang":
-        return [("W2" if phase == "closing" else "W1", "reader did not return within %.0f s" % HANG_SECONDS)]
-    if obs[0] != "accepted":
-        return []
-    if phase != "closing":
-        return [("W1", "%d bytes on disk are %s; expected an exception" % (len(data), _show(obs)))]
+def _holds_all(data, want):
+    """True when, by the independent parser, `data` holds the declared count len(want), exactly the
+    records `want` and at least one byte of the line after them."""
     try:
         orc = oracle_parse(data, need_full_box=False)
-        complete = orc["n"] == n and orc["records"] == want
     except OracleError:
-        complete = False
+        return False
+    return orc["n"] == len(want) and orc["records"] == want
+
+
+def judge_snapshot(phase, data, obs, want):
+    """Clauses W1-W3 for one crash point.  `want` = atom records of the finished file by the
+    independent parser (None when there is no parsable finished file).  Returns [(clause, message)];
+    a clause starting with '?' could not be judged or is not demanded by the statement (undecided)."""
+    if phase == "finished":
+        if obs[0] != "accepted":
+            return [("?W3", "finished file of %d bytes is %s (not demanded by the C14 statement, but W1/W2 then hold vacuously)"
+                     % (len(data), _show(obs)))]
+        if want is None:
+            return [("?W3", "finished file is accepted but the independent parser cannot read it")]
+        if obs[1] != want:
+            return [("W3", "finished file of %d bytes is %s; it holds %d records %s"
+                     % (len(data), _show(obs), len(want), str(want)[:160]))]
+        return []
+    if phase != "closing":
+        if obs[0] == "hang":
+            return [("W1", "reader did not return within %.0f s" % HANG_SECONDS)]
+        if obs[0] == "accepted":
+            return [("W1", "%d bytes on disk are %s; expected an exception" % (len(data), _show(obs)))]
+        return []
+    # inside close()
+    if obs[0] == "rejected":
+        return []
+    if want is None:
+        return [("?W2", "crash point inside close() is %s but there is no parsable finished file to compare with" % _show(obs))]
+    complete = _holds_all(data, want)
+    if obs[0] == "hang":
+        return [("?W3" if complete else "W2", "reader did not return within %.0f s" % HANG_SECONDS)]
     if not complete:
-        return [("W2", "%d bytes on disk do not hold the %d written records followed by a box line, yet are %s"
-                 % (len(data), n, _show(obs)))]
+        return [("W2", "%d bytes on disk do not hold the %d atom records of the finished file followed by a box line, yet are %s"
+                 % (len(data), len(want), _show(obs)))]
     if obs[1] != want:
-        return [("W2", "reader returns other records than were written: %s; expected %s" % (_show(obs), str(want)[:160]))]
+        return [("W2", "reader returns other records than the finished file holds: %s; expected %s" % (_show(obs), str(want)[:160]))]
     return []
 
 
 def check_session(script, workdir, reader, log=None, err=None):
-    """Returns (counts, failures [(clause, index, message)], log, stats)."""
+    """Returns (counts, distinct, failures [(clause, index, message)], log, stats).  No clause depends on
+    how many low-level operations the writer uses: whatever crash points the proxy saw are judged."""
     if log is None:
         log, err = run_session(script, workdir)
-    want = [tuple(r) for r in script["records"]]
     path = os.path.join(workdir, "crash.gro")
     counts = {"W1": 0, "W2": 0, "W3": 0, "W4": 0}
     distinct = {"W1": set(), "W2": set(), "W3": set(), "W4": set()}
     fails = []
     stats = {"accepted_inside_close": 0, "crash_points": len(log), "error": err}
+    if err is not None and err.startswith("harness:"):
+        for c in counts:
+            counts[c] = 1
+            fails.append(("?" + c, 0, err))
+        return counts, {k: 0 for k in distinct}, fails, log, stats
+    finished = log[-1][2] if log and log[-1][0] == "finished" else None
+    want = None
+    if finished is not None:
+        try:
+            want = oracle_parse(finished, need_full_box=False)["records"]
+        except OracleError:
+            want = None
+    if want is not None and want != [tuple(r) for r in script["records"]]:
+        # what the writer puts on disk for given records is C13's subject; noted, never refuted here
+        fails.append(("?W3", len(log) - 1, "finished file holds %s by the independent parser, writeline was given %s (C13's subject)"
+                      % (str(want)[:160], str(script["records"])[:160])))
     cache = {}
     for i, (phase, op, data) in enumerate(log):
         if data not in cache:
@@ -715,16 +796,16 @@ def check_session(script, workdir, reader, log=None, err=None):
             stats["accepted_inside_close"] += 1
         for clause, msg in judge_snapshot(phase, data, obs, want):
             fails.append((clause, i, "crash point #%d [%s after %s]: %s" % (i, phase, op, msg)))
-    if err is not None or not log or log[-1][0] != "finished":
+    if finished is None:
         counts["W3"] += 1
-        fails.append(("W3", len(log), "the writer session did not finish: %s" % err))
+        fails.append(("?W3", len(log), "the writer session did not finish: %s" % err))
     # torn last write: every byte prefix of the flushed file just before close() is called
     pre = [d for (ph, _, d) in log if ph not in ("closing", "finished")]
     if pre:
         data = pre[-1]
         with builtins.open(path, "wb") as f:
             f.write(data)
-        for plen in range(len(data) - 1, -1, -1):
+        for plen in range(len(data), -1, -1):
             os.truncate(path, plen)
             obs = reader(path)
             counts["W4"] += 1
@@ -759,20 +840,21 @@ def task_writer(n, tier, seed):
             closing_ops.setdefault("declared" if declare else "backfilled", set()).add(nclosing)
             for clause, idx, msg in fails:
                 cex = {"kind": "writer", "name": sname, "script": script, "crash_index": idx,
-                       "signature": "%s:%s" % (clause, "declared" if declare else "backfilled"),
+                       "signature": "%s:%s" % (clause.lstrip("?"), "declared" if declare else "backfilled"),
                        "_size": 1000 * len(script["records"]) + abs(idx)}
                 if 0 <= idx < len(log):
                     cex["phase"], cex["after_operation"] = log[idx][0], log[idx][1]
                     cex["bytes_on_disk"] = log[idx][2].decode("latin-1")
-                acc.failure(clause, "%s: %s" % (sname, msg), cex)
+                acc.route(clause, "%s: %s" % (sname, msg), cex)
             if acc.sample is None or (not declare and "backfilled" not in acc.sample.get("session", "")):
                 acc.sample = {"session": sname, "crash_points": [[ph, op, len(d)] for (ph, op, d) in log],
                               "accepted_inside_close": stats["accepted_inside_close"]}
     out += acc.obligations()
-    # vacuity: the proxy sees the steps of _write_closing_info (now: declared = seek, box, newline;
-    # back-filled = seek, count, seek, box, newline; a writer that merges box and newline into one write is fine)
-    ok = (closing_ops.get("declared") and min(closing_ops["declared"]) >= 2 and
-          closing_ops.get("backfilled") and min(closing_ops["backfilled"]) >= 4)
+    # vacuity (machinery only): the proxy saw at least one low-level operation inside close() in every session.
+    # Today: declared = seek, box, newline; back-filled = seek, count, seek, box, newline.  No clause depends on
+    # these numbers; a writer that closes with fewer writes is judged on the crash points it has.
+    ok = (closing_ops.get("declared") and min(closing_ops["declared"]) >= 1 and
+          closing_ops.get("backfilled") and min(closing_ops["backfilled"]) >= 1)
     out.append(ob("%s/%s/guard.close-steps-observed/%s" % (PROP, FN_W, fam), "discharged" if ok else "refuted",
                   kind="guard", engine="smallscope", backend="runtime-contract", expect="discharged",
                   sample={"low_level_operations_inside_close": {k: sorted(v) for k, v in closing_ops.items()},
@@ -801,9 +883,9 @@ def _writer_must_fail(fam):
         # inside close the file is acceptable but holds one record only
         log = [("open", "open", b""), ("closing", "fabricated", one), ("finished", "close() returned", full)]
         res["W2.short-file-inside-close"] = any(f[0] == "W2" for f in check_session(script, wd, reader, log, None)[2])
-        # the finished file lacks a record
-        log = [("open", "open", b""), ("finished", "close() returned", one)]
-        res["W3.finished-file-short"] = any(f[0] == "W3" for f in check_session(script, wd, reader, log, None)[2])
+        # the finished file is accepted with one record fewer than it holds (fabricated observation)
+        want = oracle_parse(full)["records"]
+        res["W3.reader-drops-a-record"] = any(c == "W3" for c, _ in judge_snapshot("finished", full, ("accepted", want[:-1]), want))
         # torn write: the flushed bytes before close have a valid file as a prefix
         log = [("open", "open", b""), ("record2", "fabricated", one + b"junk"), ("finished", "close() returned", full)]
         res["W4.valid-prefix-before-close"] = any(f[0] == "W4" for f in check_session(script, wd, reader, log, None)[2])
@@ -858,17 +940,19 @@ def replay(prop, cex):
                 f.write(data[:plen])
             obs = reader(path)
             gc.collect()
-            bad = judge_prefix(plen, len(data), orc["box_off"], orc["records"], obs)
+            allj = judge_prefix(plen, len(data), orc["box_off"], orc["records"], obs)
+            bad = [x for x in allj if not x[0].startswith("?")]
             exp = ("an exception (prefix ends before the box line at offset %d)" % orc["box_off"] if plen <= orc["box_off"]
                    else "exactly the %d records of the complete file%s" % (orc["n"], "" if plen == len(data) else ", or an exception"))
             return {"reproduced": bool(bad), "observed": _show(obs), "expected": exp,
-                    "violated": [m for _, m in bad], "inputs": cex}
+                    "violated": [m for _, m in bad], "not_judged": [m for c, m in allj if c.startswith("?")], "inputs": cex}
         if cex.get("kind") == "writer":
             script = cex["script"]
             log, err = run_session(script, wd)          # writer under the pass-through proxy (needed to see the crash state)
             counts, distinct, fails, log, stats = check_session(script, wd, reader, log, err)
             gc.collect()
             idx = cex.get("crash_index")
+            fails = [f for f in fails if not f[0].startswith("?")]
             mine = [f for f in fails if f[1] == idx] or fails
             obs = None
             if isinstance(idx, int) and 0 <= idx < len(log):
